@@ -5,10 +5,13 @@ Line-protocol driver for the C09 correspondence: evaluates the definitions of
 `Props/C09.lean` are about.
 
 Input (tokens separated by single spaces; `-` = empty/None, `?` = not given):
-  reset <name:ty,...> <name:prepcode,...>
+  reset <name:ty,...>                      ty ∈ int|str|any|dict|ints
   class <name> <spec 0|1> <bases A,B|-> <mro C,A,B> <key ?|-|name> <ovf ?|-|name> <post 0|1>
         <hand -|p:dflt:f,...> <decls -|name:ann:kind:default:factory:init,...>
-        kind ∈ none|lit|attr ; dflt/default/factory value tokens, `!` = required parameter
+        <preps -|attr:id,...> <itemPreps -|collectionattr:id,...>
+        kind ∈ none|lit|attr ; dflt/default/factory value tokens, `!` = required parameter;
+        preps = `_prepare_<attr>` methods defined in the class body (function id), itemPreps = `_prepare_<item>`
+        methods keyed by the collection attribute whose items they prepare
   call <cls> <pos -|v,v> <kw -|name=v,...>
 Value tokens: `_` missing, `i<int>`, `s<letters>`, `l<int>.<int>...`
 Output: for `class` the bootstrapped metadata and class dict; for `call`
@@ -40,7 +43,14 @@ def parseOptName (t : String) : Option (Option (Option Name)) :=
   if t == "?" then some none else if t == "-" then some (some none) else some (some (some t))
 
 def parseTy (t : String) : Option Ty :=
-  match t with | "int" => some .int | "str" => some .str | "any" => some .any | "dict" => some .dict | _ => none
+  match t with
+  | "int" => some .int | "str" => some .str | "any" => some .any | "dict" => some .dict | "ints" => some .ints
+  | _ => none
+
+def parsePreps (t : String) : Option (List (Name × Nat)) :=
+  (splitList t ",").mapM (fun p => match p.splitOn ":" with
+    | [n, i] => i.toNat?.map (fun i => (n, i))
+    | _ => none)
 
 def parseDecl (t : String) : Option Decl :=
   match t.splitOn ":" with
@@ -70,14 +80,13 @@ def parseKw (t : String) : Option Kw :=
 
 structure DSt where
   tys : List (Name × Ty) := []
-  preps : List (Name × Nat) := []
   defs : List ClassDef := []
   classes : List ClsInfo := []
 
-def DSt.env (d : DSt) : Env := { tys := d.tys, preps := d.preps, classes := d.classes }
+def DSt.env (d : DSt) : Env := { tys := d.tys, classes := d.classes }
 
 def showSpec (p : Name × AttrSpec) : String :=
-  s!"{p.1}:{p.2.owner}:{if p.2.init then 1 else 0}:{showVal p.2.default}:{showVal p.2.factory}"
+  s!"{p.1}:{p.2.owner}:{if p.2.init then 1 else 0}:{showVal p.2.default}:{showVal p.2.factory}:p{p.2.prep}:q{p.2.prepItem}"
 
 def showOptName : Option Name → String
   | none => "-"
@@ -117,20 +126,21 @@ def showState (d : DSt) (c : Cls) (s : St) : String :=
 
 def handle (d : DSt) (line : String) : DSt × String :=
   match (line.trimAscii.toString.splitOn " ").filter (· ≠ "") with
-  | ["reset", tys, preps] =>
+  | ["reset", tys] =>
     let tys := (splitList tys ",").filterMap (fun p => match p.splitOn ":" with
       | [n, t] => (parseTy t).map (fun t => (n, t)) | _ => none)
-    let preps := (splitList preps ",").filterMap (fun p => match p.splitOn ":" with
-      | [n, t] => t.toNat?.map (fun t => (n, t)) | _ => none)
-    ({ tys := tys, preps := preps }, "ok")
-  | ["class", name, spec, bases, mro, key, ovf, post, hand, decls] =>
+    ({ tys := tys }, "ok")
+  | ["class", name, spec, bases, mro, key, ovf, post, hand, decls, preps, itemPreps] =>
     let r : Option ClassDef := do
       let key ← parseOptName key
       let ovf ← parseOptName ovf
       let hand ← if hand == "-" then some none else ((hand.splitOn ",").mapM parseHandParam).map some
       let decls ← (splitList decls ",").mapM parseDecl
+      let preps ← parsePreps preps
+      let itemPreps ← parsePreps itemPreps
       pure { name := name, bases := splitList bases ",", mro := splitList mro ",", spec := spec == "1",
-             keyArg := key, ovfArg := ovf, decls := decls, hand := hand, post := post == "1" }
+             keyArg := key, ovfArg := ovf, decls := decls, hand := hand, post := post == "1",
+             preps := preps, itemPreps := itemPreps }
     match r with
     | none => (d, "bad-class")
     | some cd =>
